@@ -359,3 +359,10 @@ def run(M, rep, tier, only=None):
                 "/".join(sorted(bad[2])), show(bad[1])[:200]), site=f.file + ":%d" % f.node.lineno, detail=describe_path(bad[0]))
         else:
             rep.ok(R4, "SampledDimension.index_of")
+
+    # ---- R5 (shared with C05.R5): the conversions take ticks / labels from the accessors, which follow a link when the
+    # dimension is linked -- reading the dimension's own stored copy converts against stale or absent values
+    R5 = rep.rule("C07.R5", "position->index conversions read ticks/labels through the accessors (linked values when linked)", floor=4,
+                  technique="event provenance (call stack of every read of the own ticks/labels) on all paths (shared with C05.R5)")
+    from . import c05
+    c05.accessor_use_rule(M, rep, R5, Ctx(M, coarse=False))
